@@ -285,6 +285,7 @@ fn main() {
             let mut results: Vec<Value> = Vec::new();
             let mut next = 0u64;
             let mut running: Vec<(u64, std::process::Child)> = Vec::new();
+            let mut timed_out = 0u64;
             while next < n || !running.is_empty() {
                 while next < n && running.len() < 16 {
                     let c = std::process::Command::new(&exe)
@@ -296,7 +297,32 @@ fn main() {
                     running.push((next, c));
                     next += 1;
                 }
-                let (i, c) = running.remove(0);
+                let (i, mut c) = running.remove(0);
+                // a world that does not come back within 60 s is killed and
+                // counted as inconclusive: std primitives that have no
+                // simulated twin (e.g. OnceLock) can block the single OS
+                // thread all simulated tasks share
+                let t_child = std::time::Instant::now();
+                let mut timed_out_now = false;
+                loop {
+                    match c.try_wait() {
+                        Ok(Some(_)) => break,
+                        Ok(None) => {
+                            if t_child.elapsed().as_secs() > 60 {
+                                let _ = c.kill();
+                                timed_out_now = true;
+                                break;
+                            }
+                            std::thread::sleep(std::time::Duration::from_millis(2));
+                        }
+                        Err(_) => break,
+                    }
+                }
+                if timed_out_now {
+                    let _ = c.wait();
+                    timed_out += 1;
+                    continue;
+                }
                 let out = c.wait_with_output().expect("wait child");
                 match serde_json::from_slice::<Value>(&out.stdout) {
                     Ok(v) if out.status.success() => results.push(v),
@@ -320,6 +346,7 @@ fn main() {
                 "library_source_lines_changed_by_instrumentation": instrumented,
                 "note": "each fresh process runs 2-4 simulated threads that build the same sequence through different entry points cold, then warm; std sync primitives in the library sources are mapped to shuttle at build time (none exist on the pinned tree, so thread bodies are atomic there)",
                 "sample": results.get(0),
+                "worlds_killed_after_60s_inconclusive": timed_out,
                 "violations": bad.is_some() as u64,
                 "wall_s": t0.elapsed().as_secs_f64(),
             });
